@@ -557,6 +557,9 @@ func checkResultOwned(fn *ssa.Function, ru *Rule) {
 func templateFuncs(p *Prog, pkgSuffix, varName string) map[string]*ssa.Function {
 	out := map[string]*ssa.Function{}
 	sp := p.SSAPkg[ModPath+"/"+pkgSuffix]
+	if g := templateGlobal(p, pkgSuffix, varName); nil != g && nil != g.Pkg {
+		sp = g.Pkg
+	}
 	if nil == sp {
 		return out
 	}
